@@ -3,7 +3,7 @@ must-pass-through ordering."""
 from __future__ import annotations
 
 import ast
-from typing import Callable, Dict, List, Optional
+from typing import Callable, Dict, List, Optional, Set
 
 import sympy as sp
 
@@ -50,6 +50,39 @@ def formula_equals(expr: ast.expr, roles: Dict[str, sp.Symbol], want: sp.Expr, l
     return None, how
 
 
+_EXTREMA = {"max", "min", "maximum", "minimum", "fmax", "fmin"}
+
+
+def absolute_operands(e: ast.expr, data_names: Set[str]) -> List[ast.expr]:
+    """Operands of a sum / difference / max / min in `e` that do not mention any of `data_names` and are not the constant 0.
+    A quantity meant to scale with the data (degree k > 0) that is added to, floored or capped by such an operand is no longer
+    homogeneous: f(c*X) != c^k f(X) for small or large c.  Unary minus and parentheses are looked through; products are leaves."""
+    out: List[ast.expr] = []
+
+    def leaves(x: ast.expr, top: bool) -> None:
+        if isinstance(x, ast.BinOp) and isinstance(x.op, (ast.Add, ast.Sub)):
+            leaves(x.left, False), leaves(x.right, False)
+            return
+        if isinstance(x, ast.UnaryOp) and isinstance(x.op, (ast.USub, ast.UAdd)):
+            leaves(x.operand, top)
+            return
+        if isinstance(x, ast.Call) and not x.keywords and len(x.args) >= 2 and (
+                (isinstance(x.func, ast.Name) and x.func.id in _EXTREMA)
+                or (isinstance(x.func, ast.Attribute) and x.func.attr in _EXTREMA)):
+            for a in x.args:
+                leaves(a, False)
+            return
+        if top:
+            return
+        if isinstance(x, ast.Constant) and isinstance(x.value, (int, float)) and not isinstance(x.value, bool) and x.value == 0:
+            return
+        if not any(isinstance(n, ast.Name) and n.id in data_names for n in ast.walk(x)):
+            out.append(x)
+
+    leaves(e, True)
+    return out
+
+
 def single_defs(fn: ast.FunctionDef) -> Dict[str, List[ast.Assign]]:
     out: Dict[str, List[ast.Assign]] = {}
     for n in ast.walk(fn):
@@ -71,6 +104,17 @@ def ttm_transposed(prog: Program, res: Result, short: str, rule: str = "TTM-T") 
                          (isinstance(a0, ast.Call) and isinstance(a0.func, ast.Attribute) and a0.func.attr == "transpose") or \
                          (isinstance(a0, ast.Attribute) and a0.attr == "T")
             desc = f"projection multiplies by the transposed factor: {ast.unparse(c)[:80]}"
+            # pairing: the list handed to the ttensor constructor is indexed by MODE; ttm(list, dims) pairs list[i] with dims[i],
+            # so giving the processing order `dimorder` as dims applies factor i to mode dimorder[i]
+            dims = kwarg(c, "dims") or (c.args[1] if len(c.args) > 1 else None)
+            by_mode = {x.args[1].id for x in ast.walk(fi.node) if isinstance(x, ast.Call) and (dotted(x.func) or "").split(".")[-1] == "ttensor"
+                       and len(x.args) > 1 and isinstance(x.args[1], ast.Name)}
+            if isinstance(a0, ast.Name) and a0.id in by_mode and isinstance(dims, ast.Name) and dims.id == "dimorder" \
+                    and "dimorder" in {a.arg for a in fi.node.args.args + fi.node.args.kwonlyargs}:
+                res.bad(rule, short, f"the mode-indexed factor list is paired with the modes in order: {ast.unparse(c)[:80]}", prog.loc(fi, c),
+                        f"`{a0.id}` is indexed by mode (it is the factor list of the returned ttensor) but is paired with the processing "
+                        "order `dimorder`: factor i is applied to mode dimorder[i], wrong for every non-identity order")
+                continue
             if transposed:
                 res.ok(rule, short, desc, prog.loc(fi, c))
             else:
